@@ -26,8 +26,44 @@ package csblob
 //@ func parseCodeDirectory
 //@   property C11
 //@   nopanic
+//@   ensures @directory_present_on_success ret1 == nil ==> ret0 != nil
+//@   fresh ret0
+//@   modifies nothing
 //@   allocbound 0 24 * len(blob) + 24
 //@   loop 0 sig "for i := 0; i < int(hdr.CodeSlotCount); i++" invariant 0 <= i && i <= hdr.CodeSlotCount && len(dir.CodeHashes) == hdr.CodeSlotCount && dir != nil && \
 //@        hashLen >= 1 && hashLen <= 255 && hdr.SpecialSlotCount * hashLen <= hashBase && hashBase + hdr.CodeSlotCount * hashLen <= len(blob) && hashBase >= 0
 //@   loop 1 sig "for i := 1; i <= int(hdr.SpecialSlotCount); i++" invariant 1 <= i && dir != nil && \
 //@        hashLen >= 1 && hashLen <= 255 && hdr.SpecialSlotCount * hashLen <= hashBase && hashBase + hdr.CodeSlotCount * hashLen <= len(blob) && hashBase >= 0
+
+//@ func hashCheck
+//@   property C02
+//@   ghost eq bool = false
+//@   on call crypto/hmac.Equal(a, b) ret (r): eq = (r && sameslice(b, expected))
+//@   ensures @digest_compared_with_the_expected_value ret0 == nil ==> eq
+//@   modifies nothing
+//@
+//@ func Verify
+//@   property C02 C11
+//@   nopanic
+//@   ghost sigG *SigBlob = nil
+//@   ghost cmsOK bool = false
+//@   ghost cdOK bool = false
+//@   on call parseSignature(_) ret (s, e): sigG = s
+//@   before call (*pkcs7.SignedData).Verify(sd, ext, skip): assert @cms_covers_the_first_code_directory len(sigG.Directories) >= 1 && sameslice(ext, sigG.Directories[0].Raw) && !skip
+//@   on call (*pkcs7.SignedData).Verify(sd, ext, skip) ret (s, e): cmsOK = (e == nil)
+//@   on call checkCDHashes(_, _) ret (e): cdOK = (e == nil && cmsOK)
+//@   ensures @cms_signature_and_code_directory_hashes_verified ret1 == nil ==> cmsOK && cdOK
+//@   loop 0 sig "for _, dir := range sig.Directories" invariant sig != nil && sigG == sig && !cmsOK && !cdOK && forall(k, 0, len(pre(sig.Directories)), pre(sig.Directories)[k] != nil) && \
+//@        sameslice(sig.Directories, pre(sig.Directories)) && (computedHashes != nil)
+
+//@ func parseSignature
+//@   property C11 C02
+//@   nopanic
+//@   ensures @blob_and_its_directories_present_on_success ret1 == nil ==> ret0 != nil && forall(k, 0, len(ret0.Directories), ret0.Directories[k] != nil)
+//@   loop 0 sig "for _, item := range items" invariant sig != nil && forall(k, 0, len(sig.Directories), sig.Directories[k] != nil)
+
+//@ func hashFunc
+//@   property C11
+//@   nopanic
+//@   ensures @only_linked_hashes ret1 == nil ==> ret0 == 3 || ret0 == 5 || ret0 == 6
+//@   modifies nothing
